@@ -96,3 +96,23 @@ Proof.
   exact (proj1 (sync_hrun cfg beh Huni h init_tstate v0 (sync_init beh v0 H0) Hwf)).
 Qed.
 Print Assumptions C08_oracle_clause_801.
+
+(* an application manipulator may mark what it no longer knows as unknown: the
+   belief that remains is still true of the terminal.  For the rendition this
+   holds only while the character set believed in use is US ASCII - the library
+   reads "rendition unknown" as "character set as at the start". *)
+Theorem C08_forgetting_is_sound :
+  forall beh st v, Sync beh st v ->
+    Sync beh (set_cur st None) v /\ Sync beh (set_saved st None) v /\ Sync beh (set_vis st None) v /\
+    (last_cs st = CsAscii -> Sync beh (set_last st None) v).
+Proof.
+  intros beh st v [Slex Smal Sunk Ssize Scs Srend Scur Ssaved Svis].
+  split; [|split; [|split]].
+  - constructor; cbn; try assumption. intros p Hp. discriminate.
+  - constructor; cbn; try assumption. intros p Hp. discriminate.
+  - constructor; cbn; try assumption. intros b Hb. discriminate.
+  - intros Ha. constructor; cbn; try assumption.
+    + unfold last_cs in *. cbn. rewrite <- Ha. exact Scs.
+    + intros l Hl. discriminate.
+Qed.
+Print Assumptions C08_forgetting_is_sound.
